@@ -171,6 +171,10 @@ ErrStmts == [
   PropSpreadInParamList |-> <<SFn(<<113>>, <<EObj(<<PSpread(Nm(<<97>>))>>)>>, FALSE, <<>>)>>,
   ItemSpreadInParamList |-> <<SFn(<<113>>, <<EListOf(<<Spread(Nm(<<97>>))>>)>>, FALSE, <<>>)>>,
   ParamBindError   |-> <<SDecl(Q, EFunc(<<EPat(<<Nm(<<97>>)>>)>>, FALSE, <<>>)), SExpr(ECall(Q, <<I(1)>>))>>,
+  \* a long container whose last item cannot be rendered: nothing of it may reach stdout
+  PrintLongCyclic  |-> <<SDecl(Q, EBin("+", ERange(I(0), I(39)), EList(<<I(0)>>))), SAssign(EIndex(Q, I(39)), Q), SPrint(Q)>>,
+  PrintLongUtf8    |-> <<SDecl(Q, EBin("+", ERange(I(0), I(33)), EList(<<Eacute0>>))), SPrint(Q)>>,
+  PrintNestedUtf8  |-> <<SPrint(EObj(<<Pair(EStr(KA), I(1)), Pair(EStr(<<98>>), EList(<<I(2), Eacute0>>))>>))>>,
   PrintCyclic      |-> <<SDecl(Q, EList(<<I(1)>>)), SAssign(EIndex(Q, I(0)), Q), SPrint(Q)>>
 ]
 
